@@ -116,6 +116,20 @@ def instances(tier, seed):
     return out
 
 
+def source_failure_instances(seed):
+    """source listeners that shut down with an error of their own (session-style listeners), after or around Close"""
+    out = []
+    for n, order in enumerate((["I1", "A1", "C1"], ["I1", "C1", "A1"], ["C1", "I1", "A1"], ["I1", "I2", "A1", "X", "C1"], ["I1", "A1", "I2", "A2"], ["A1", "I1", "C1", "I2"])):
+        K = sum(1 for x in order if x[0] == "I")
+        out.append(dict(id="f%d" % n, K=K, M=sum(1 for x in order if x[0] == "A"), C=sum(1 for x in order if x[0] == "C"), cancel=("X" in order), order=order,
+                        via=list(range(1, K + 1)), errs={}, eachSrc=(n % 2 == 0), srcErr="custom", settle=300, seed=seed))
+    return out
+
+
+class DriverCrash(Exception):
+    pass
+
+
 def run_driver_race(scr, insts, tag, seed):
     exe = build_harness(scr, race=True)
     inp, outp = scr.path("inst_%s.ndjson" % tag), scr.path("mtrace_%s.ndjson" % tag)
@@ -125,6 +139,8 @@ def run_driver_race(scr, insts, tag, seed):
     p = subprocess.run([exe, "mux", "-in", inp, "-out", outp, "-seed", str(seed), "-par", "8"], stdout=subprocess.PIPE, stderr=subprocess.STDOUT,
                        text=True, env=env, timeout=1800)
     if p.returncode != 0:
+        if "panic:" in p.stdout or "fatal error:" in p.stdout:
+            raise DriverCrash(p.stdout[-4000:])
         raise Broken("mux driver failed: %s" % p.stdout[-3000:])
     races, own = [], []
     for f in glob.glob(racelog + "*"):
@@ -196,7 +212,13 @@ def _check(prop, tier, seed, replay, scr, t0):
         rp = json.load(open(replay))
         inst = rp["instance"]
         insts = [dict(inst, id="r%d" % i) for i in range(400)]
-        lines, path, races = run_driver_race(scr, insts, "replay", seed)
+        try:
+            lines, path, races = run_driver_race(scr, insts if not inst.get("srcErr") else insts[:1], "replay", seed)
+        except DriverCrash as e:
+            if "nodeenrollment/net." not in str(e):
+                raise Broken("mux driver crashed outside the library: %s" % str(e)[-2000:])
+            print("VIOLATION property=%s replay=%s  # a goroutine of the listener panicked: the process died" % (prop, replay))
+            return 1
         r = monitor(scr, path, len(lines))
         bad = _viol_instances(r["viol"])
         if bad or races:
@@ -249,6 +271,35 @@ def _check(prop, tier, seed, replay, scr, t0):
         print("VIOLATION property=%s replay=%s  # clause=data-race (Go race detector)" % (prop, rp))
         reported += 1
 
+    # source listeners failing with an error of their own: a panic in one of the LIBRARY's goroutines takes the whole
+    # process down, so these instances run one process each; a crash counts only if its stack names the library's
+    # listener code and the same instance crashes again
+    crash_probe = 0
+    for inst in source_failure_instances(seed):
+        crash_probe += 1
+        try:
+            l4, p4, _ = run_driver_race(scr, [inst], "srcfail_%s" % inst["id"], seed)
+            r4 = monitor(scr, p4, len(l4))
+            if _viol_instances(r4["viol"]):
+                rp = replay_path(prop, "%s-s%s" % (inst["id"], seed))
+                json.dump(dict(property=prop, seed=seed, instance=inst, clauses=sorted(set(sum(_viol_instances(r4["viol"]).values(), []))), recorded=l4), open(rp, "w"), indent=1)
+                print("VIOLATION property=%s replay=%s  # clauses=%s order=%s (source listeners shut down with their own error)" % (
+                    prop, rp, ",".join(sorted(set(sum(_viol_instances(r4["viol"]).values(), [])))), " ".join(inst["order"])))
+                reported += 1
+        except DriverCrash as e:
+            txt = str(e)
+            if "nodeenrollment/net." not in txt:
+                raise Broken("mux driver crashed outside the library: %s" % txt[-2000:])
+            try:
+                run_driver_race(scr, [dict(inst, id="fc")], "srcfail_confirm", seed)
+                log("[%s] crash of instance %s did not reproduce" % (prop, inst["id"]))
+                unreproduced.append(inst["id"])
+            except DriverCrash as e2:
+                rp = replay_path(prop, "%s-s%s" % (inst["id"], seed))
+                json.dump(dict(property=prop, seed=seed, instance=inst, clauses=["panic"], crash=str(e2)[-3000:]), open(rp, "w"), indent=1)
+                print("VIOLATION property=%s replay=%s  # clauses=panic (a goroutine of the listener panicked: the process died) order=%s" % (prop, rp, " ".join(inst["order"])))
+                reported += 1
+
     # explanation by the model (drift only): a subset in the quick tier
     # (instances with unusual items are judged by the monitor only: Mux.tla models items that carry a connection and no error)
     expl = [i for i in insts if i["K"] <= 3 and i["M"] <= 3 and i["C"] <= 2 and not i.get("errs")]
@@ -292,7 +343,7 @@ def _check(prop, tier, seed, replay, scr, t0):
     coverage = dict(states=st + est[0], transitions=tr + est[1], traces_validated_against_impl=explained, samples=samples,
                     evaluations=len(insts), distinct_nontrivial=len(nontrivial),
                     rule="instances = every distinct start order of small operation sets (ingress x k - through IngressConn or through a source listener attached with IngressListener -, accept x m, close x 1-2, parent cancel) with settling between starts + seeded stress instances without settling, all under the race detector; non-trivial = distinct recorded histories in which some connection was returned by an accept AND some connection was closed by the listener",
-                    mc_runs=mc_runs, instances=len(insts), events=len(lines), monitored_instances=len(insts),
+                    source_failure_instances=crash_probe, mc_runs=mc_runs, instances=len(insts), events=len(lines), monitored_instances=len(insts),
                     explained_instances=explained, unexplained_instances=len(unexplained), race_reports=len(races),
                     known_findings_hit=known_hit, exhaustive=False)
     write_evidence(prop, tier, seed, "model_checking", coverage, time.time() - t0, reported,
